@@ -32,3 +32,31 @@ Theorem locals_accounted :
      CApi.locals_polyseed_decode_explicit ++ CApi.locals_polyseed_phrase_decode ++ CApi.locals_polyseed_encode ++
      CApi.locals_polyseed_crypt ++ CApi.locals_polyseed_keygen) = true.
 Proof. reflexivity. Qed.
+
+(* the C types of the result and of the parameters of every translated function of the API layer, typedefs resolved,
+   as clang reports them for /repo's CURRENT headers: the translator reads each integer parameter as a value already
+   in the range of its type, so a change of a parameter's type (the coin becoming an 8-bit integer, say) changes
+   what callers can pass without changing the translated body - it is accounted for here instead. *)
+Theorem tie_ctypes :
+  CApi.ctypes_gf_poly_check = ["bool"; "message : const gf_poly *"] /\
+  CApi.ctypes_gf_poly_encode = ["void"; "message : gf_poly *"] /\
+  CApi.ctypes_get_comparer = ["polyseed_cmp *"; "lang : const polyseed_lang *"] /\
+  CApi.ctypes_polyseed_inject = ["void"; "deps : const polyseed_dependency *"] /\
+  CApi.ctypes_lang_search = ["int"; "lang : const polyseed_lang *"; "word : const char *"; "cmp : polyseed_cmp *"] /\
+  CApi.ctypes_polyseed_lang_find_word = ["int"; "lang : const polyseed_lang *"; "word : const char *"] /\
+  CApi.ctypes_polyseed_free = ["void"; "seed : polyseed_data *"] /\
+  CApi.ctypes_polyseed_get_birthday = ["uint64_t"; "data : const polyseed_data *"] /\
+  CApi.ctypes_polyseed_get_feature = ["unsigned int"; "seed : const polyseed_data *"; "mask : unsigned int"] /\
+  CApi.ctypes_polyseed_is_encrypted = ["int"; "seed : const polyseed_data *"] /\
+  CApi.ctypes_polyseed_store = ["void"; "seed : const polyseed_data *"; "storage : uint8_t *"] /\
+  CApi.ctypes_polyseed_load = ["polyseed_status"; "storage : const uint8_t *"; "seed_out : polyseed_data **"] /\
+  CApi.ctypes_polyseed_create = ["polyseed_status"; "features : unsigned int"; "seed_out : polyseed_data **"] /\
+  CApi.ctypes_polyseed_keygen = ["void"; "seed : const polyseed_data *"; "coin : enum polyseed_coin"; "key_size : unsigned long"; "key_out : uint8_t *"] /\
+  CApi.ctypes_polyseed_crypt = ["void"; "seed : polyseed_data *"; "password : const char *"] /\
+  CApi.ctypes_polyseed_phrase_decode = ["polyseed_status"; "phrase : const char *const *"; "idx_out : uint_fast16_t *"; "lang_out : const polyseed_lang **"] /\
+  CApi.ctypes_str_split = ["int"; "str : char *"; "words : const char **"] /\
+  CApi.ctypes_polyseed_decode = ["polyseed_status"; "str : const char *"; "coin : enum polyseed_coin"; "lang_out : const polyseed_lang **"; "seed_out : polyseed_data **"] /\
+  CApi.ctypes_polyseed_decode_explicit = ["polyseed_status"; "str : const char *"; "coin : enum polyseed_coin"; "lang : const polyseed_lang *"; "seed_out : polyseed_data **"] /\
+  CApi.ctypes_write_str = ["void"; "pos : char **"; "str : const char *"] /\
+  CApi.ctypes_polyseed_encode = ["size_t"; "data : const polyseed_data *"; "lang : const polyseed_lang *"; "coin : enum polyseed_coin"; "str_out : char *"].
+Proof. repeat split; reflexivity. Qed.
